@@ -97,7 +97,8 @@ def run_M(ctx, quick):
     cfgs = ["LockstepMC_quick.cfg"] if quick else \
            ["LockstepMC_quick.cfg", "LockstepMC_quick3.cfg", "LockstepMC_thorough.cfg", "LockstepMC_thorough4.cfg"]
     for cfg in cfgs:
-        res = tlc.run("Lockstep", cfg, coverage=(cfg == "LockstepMC_quick.cfg"), tag="c02mc", timeout=6000)
+        res = tlc.run("Lockstep", cfg, coverage=(cfg == "LockstepMC_quick.cfg"), tag="c02mc", timeout=6000,
+                      workers=2 if quick else None)       # quick: one TLC slot
         ctx.add_tlc(res, "M:" + cfg)
     seen = {}
 
